@@ -2,7 +2,9 @@
    Print Assumptions. *)
 From Coq Require Import ZArith List Bool.
 From Centro Require Import Base.Sx Base.EmdBase Spec.Emd Model.Emd Model.EmdCert
-  Proofs.EmdDuality Proofs.EmdScaled Proofs.EmdModel Proofs.EmdSsp Proofs.EmdCertModel Proofs.EmdMetric.
+  Proofs.EmdDuality Proofs.EmdScaled Proofs.EmdModel Proofs.EmdSsp Proofs.EmdCertModel Proofs.EmdMetric
+  Proofs.EmdFuel Proofs.EmdHeap Proofs.EmdTransform.
+From Centro Require Import Model.EmdMcf.
 Import ListNotations.
 Open Scope Z_scope.
 
@@ -79,9 +81,11 @@ Print Assumptions C10_model_emd_correct.
    PROVED here (all graphs, all sizes): whenever the model's successive-shortest-path solver returns,
    its result is a FLOW of the graph it was given — same arcs, non-negative net amounts, net outflow =
    supply at every node; and the reduced graph is balanced (C10_reduce_balanced).
-   MISSING: lemma ssp_reduced_costs_nonneg (no negative residual cycle is ever created, so the final
-   flow is of minimum cost and the dual search succeeds) and the read-back book-keeping
-   (read_back / transform_flow_to_regular / my_dist).  Observed instead: the certified model answers
+   and the solver never runs out of fuel (C10_ssp_fuel_sufficient).
+   MISSING: lemma ssp_reduced_costs_nonneg (no negative residual cycle is ever created, so no step
+   returns Fail, the final flow is of minimum cost and the dual search succeeds) and the read-back
+   book-keeping of read_back and my_dist (transform_flow_to_regular is done:
+   C10_transform_regular_completes).  Observed instead: the certified model answers
    on every generated instance of every run (a None is reported as a correspondence failure).
    (Example: Proofs.EmdSsp.solver_hyps_example.) *)
 Theorem C10_model_total_partial : forall bb cc arcs',
@@ -131,3 +135,55 @@ Theorem C10_metric_preflow_bookkeeping : forall P Q, length P = length Q ->
     fst (fst t) = nz P i - snd t /\ snd (fst t) = nz Q i - snd t.
 Proof. exact preflow_spec. Qed.
 Print Assumptions C10_metric_preflow_bookkeeping.
+
+(* Termination side of totality: every augmentation lowers the total positive excess by >= 1, so
+   2^k augmentations (fuel level k) suffice when the total supply is below 2^k; the model uses
+   k = 48 (int32 masses, fewer than 2^16 bins).  A run can then only end with Done or Fail. *)
+Theorem C10_ssp_fuel_sufficient : forall k e arcs, pos_sum e < 2 ^ Z.of_nat k ->
+  forall e' arcs', ssp_iter k e arcs <> More e' arcs'.
+Proof. exact ssp_fuel_sufficient. Qed.
+Print Assumptions C10_ssp_fuel_sufficient.
+
+(* Line-level model of min_cost_flow.hpp (Model/EmdMcf.v; it reproduces the implementation's FLOWS
+   exactly in every run).  Index safety of its binary heap: Q and _nodes_to_Q are read and written
+   through bounds-checked accessors (None = the C++ would index outside the vector), and the heap
+   operations never produce None, given only what the code itself ensures: entries name nodes
+   inside the position table; decrease_key is called after the test _nodes_to_Q[v] < Q.size();
+   remove_first is called on a non-empty heap.  PARENT / LEFT / RIGHT arithmetic included. *)
+Theorem C10_heap_decrease_key_safe : forall h v alt pos, ents_ok h ->
+  oget (snd h) v = Some pos -> (pos < length (fst h))%nat ->
+  exists h', heap_decrease_key h v alt = Some h' /\ same_shape h h' /\ ents_ok h'.
+Proof. exact heap_decrease_key_safe. Qed.
+Print Assumptions C10_heap_decrease_key_safe.
+
+Theorem C10_heap_remove_first_safe : forall h, ents_ok h -> (0 < length (fst h))%nat ->
+  exists h', heap_remove_first h = Some h' /\ length (fst h') = (length (fst h) - 1)%nat /\
+             length (snd h') = length (snd h) /\ ents_ok h'.
+Proof. exact heap_remove_first_safe. Qed.
+Print Assumptions C10_heap_remove_first_safe.
+
+Theorem C10_heap_relax_safe : forall u du st v rc, ents_ok (sp_h st) -> (v < length (snd (sp_h st)))%nat ->
+  exists st', relax u du st v rc = Some st' /\ same_shape (sp_h st) (sp_h st') /\ ents_ok (sp_h st').
+Proof. exact relax_safe. Qed.
+Print Assumptions C10_heap_relax_safe.
+
+Theorem C10_heap_init_ok : forall nv from, (from < nv)%nat ->
+  ents_ok (heap_init nv from) /\ length (fst (heap_init nv from)) = nv /\ length (snd (heap_init nv from)) = nv.
+Proof. exact heap_init_ok. Qed.
+Print Assumptions C10_heap_init_ok.
+
+(* Book-keeping of flow_utils.hpp transform_flow_to_regular as transcribed (north-west-corner
+   completion, fuel 2N+1): from ANY flow F within supplies and demands it always returns, and the
+   result contains F and is a feasible flow of the transportation problem moving min(sum P,sum Q).
+   All sizes.  (Example: Proofs.EmdTransform.transform_example.) *)
+Theorem C10_transform_regular_completes : forall F P Q,
+  let N := length P in
+  square N F -> length Q = N ->
+  (forall a b, 0 <= mz F a b) ->
+  (forall a, (a < N)%nat -> rowsum N (mz F) a <= nz P a) ->
+  (forall b, (b < N)%nat -> colsum N (mz F) b <= nz Q b) ->
+  exists F', transform_flow_to_regular F P Q = Some F' /\ square N F' /\
+             (forall a b, mz F a b <= mz F' a b) /\
+             feasible N N (nz P) (nz Q) (emd_T P Q) (mz F').
+Proof. exact transform_regular_spec. Qed.
+Print Assumptions C10_transform_regular_completes.
